@@ -211,6 +211,8 @@ class T:
                     return T.payload(a[0], "Some")
                 if vname == "Err":
                     return a[1]
+            if f == "option::Option::ok_or_else" and vname == "Ok":
+                return T.payload(a[0], "Some")
             if f == "result::Result::ok":
                 if vname == "Some":
                     return T.payload(a[0], "Ok")
